@@ -235,15 +235,33 @@ pub fn scenario<C: Coll>(c: &mut Ctx, idx: u64, rng: &mut Rng, name: &str) {
     {
         let room = col.capacity() - col.len();
         let ids = absent_ids(&col, room.min(20_000), rng);
+        // through insert, or through Extend from an iterator with any lawful size hint (exact, loose upper bound, none)
+        let n = ids.len();
+        let route = rng.below(7);
+        let (lo, hi): (usize, Option<usize>) = match route {
+            1 => (n, Some(n)),
+            2 => (0, Some(n)),
+            3 => (0, Some(10 * n + 100_000)),
+            4 => (0, None),
+            5 => (n, None),
+            6 => (n / 2, Some(2 * n + 7)),
+            _ => (0, None),
+        };
         let a0 = ckalloc::counters();
-        for (i, id) in ids.iter().enumerate() {
-            col.put(*id, 900u16.wrapping_add(i as u16));
+        if route == 0 {
+            for (i, id) in ids.iter().enumerate() {
+                col.put(*id, 900u16.wrapping_add(i as u16));
+            }
+        } else {
+            col.extend_hinted(&ids, 901, lo, hi);
+            c.bump("room_fills_through_extend");
         }
         let a1 = ckalloc::counters();
         if a1.allocs != a0.allocs || a1.deallocs != a0.deallocs {
             crate::viol!(
-                "{} [{}]: inserting {} absent keys into a collection with capacity()-len() = {} allocated ({} allocs, {} deallocs)",
-                name, spec.describe(), ids.len(), room, a1.allocs - a0.allocs, a1.deallocs - a0.deallocs
+                "{} [{}]: inserting {} absent keys ({}) into a collection with len() {} and capacity()-len() = {} allocated ({} allocs, {} deallocs)",
+                name, spec.describe(), n, if route == 0 { "insert".to_string() } else { format!("extend from an iterator with size_hint ({}, {:?})", lo, hi) },
+                col.len() - n.min(col.len()), room, a1.allocs - a0.allocs, a1.deallocs - a0.deallocs
             );
         }
         held("after filling the reported room", &col);
@@ -338,6 +356,25 @@ pub fn scenario<C: Coll>(c: &mut Ctx, idx: u64, rng: &mut Rng, name: &str) {
             name, spec.describe(), if which == 0 { "clear" } else { "drain" }, a1.allocs - a0.allocs, a1.deallocs - a0.deallocs
         );
         held("after clear/drain", &x);
+        // the kept allocation is usable: refilling up to the reported capacity, also through Extend with a loose
+        // upper size hint, allocates nothing
+        {
+            let room = x.capacity().min(3000);
+            let ids = absent_ids(&x, room, rng);
+            let n = ids.len();
+            let b0 = ckalloc::counters();
+            if rng.chance(1, 3) {
+                for id in &ids {
+                    x.put(*id, 5);
+                }
+            } else {
+                let hi = *rng.pick(&[None, Some(n), Some(4 * n + 50_000)]);
+                x.extend_hinted(&ids, 5, 0, hi);
+            }
+            let b1 = ckalloc::counters();
+            crate::check!(b1.allocs == b0.allocs && b1.deallocs == b0.deallocs, "{} [{}]: refilling {} keys into the allocation kept by {} (capacity {}) allocated", name, spec.describe(), n, if which == 0 { "clear" } else { "drain" }, x.capacity());
+            held("after refilling a cleared collection", &x);
+        }
         x.validate(name);
         ev(c, 6 + which, cls);
     }
